@@ -1,18 +1,19 @@
 #!/bin/bash
 # Run every seeded change against the quick check of its property and record the outcome in its
-# meta.json ("check_result"). Never run while another check or a vp run is using /repo.
+# meta.json ("check_result"). Each change is applied to a scratch worktree of /repo's HEAD (tools/trymutant_alt.sh:
+# own target and evidence directory under $MLV_ALT_DIR, default /tmp/mlv-alt), never to /repo itself.
 cd "$(dirname "$0")/.." || exit 2
 only=${@:-$(ls seeded)}
 for id in $only; do
   d=seeded/$id; prop=${id%%-*}
   [ -f $d/patch.diff ] || continue
-  tools/trymutant.sh $d/patch.diff $prop > /tmp/matrix.$id.out 2>&1; rc=$?
+  TAILN=400 tools/trymutant_alt.sh $d/patch.diff $prop > /tmp/matrix.$id.out 2>&1; rc=$?
   sigs=$(grep "signature:" /tmp/matrix.$id.out | sed 's/.*signature: //' | sort -u | head -6 | tr '\n' ';')
   python3 - "$d/meta.json" "$rc" "$sigs" "$prop" <<'PY'
 import json,sys
 p,rc,sigs,prop=sys.argv[1:5]
 m=json.load(open(p))
-m["check_result"]={"command":f"git -C /repo apply seeded/<id>/patch.diff; ./check {prop} --tier quick; git -C /repo checkout -- .","exit_code":int(rc),
+m["check_result"]={"command":f"tools/trymutant_alt.sh seeded/<id>/patch.diff {prop}  (scratch worktree of /repo HEAD + the patch, ./check {prop} --tier quick against it)","exit_code":int(rc),
   "caught":int(rc)==1,"violation_signatures":[s for s in sigs.split(';') if s]}
 json.dump(m,open(p,"w"),indent=1)
 PY
